@@ -24,6 +24,7 @@ CONSTANTS
   Threads <- MCThreads
   Sequential <- MCSequential
   Preload <- MCPreload
+  RetryGhost <- MCRetryGhost
 INIT Init
 NEXT Next
 VIEW View
